@@ -9,6 +9,7 @@ def _nontrivial(t):
 CFG = {
     "module": "Swat4.Properties.C16",
     "theorems": [
+        "Swat4.C16.facts_config_wiring",
         "Swat4.C16.backed_enqueue",
         "Swat4.C16.reported_adds_no_mark",
         "Swat4.C16.outcomes_clear_mark",
